@@ -223,9 +223,9 @@ def run_cases(mod, cases, procs=None):
         import multiprocessing as mp
 
         ctx = mp.get_context("fork")
-        chunk = max(1, min(64, len(jobs) // (procs * 8) or 1))
+        chunk = 1 if len(jobs) <= 4000 else max(1, min(64, len(jobs) // (procs * 32)))
         with ctx.Pool(procs) as pool:
-            res = pool.map(_run_one, jobs, chunksize=chunk)
+            res = list(pool.imap_unordered(_run_one, jobs, chunksize=chunk))
     res.sort(key=lambda r: r["idx"])
     return res
 
